@@ -54,6 +54,10 @@ def tree():
         "tools/Makefile": "all:\n\techo not code\n",
         # ... and a folder name that is markup to a rich-text renderer (Next.js / SvelteKit dynamic routes)
         "app/[id]/route.js": js("routeJs", 47),
+        # a folder whose entries are ALL hidden folders (they are neighbours in every listing order)
+        "only/.a/x.py": py("hid_a", 61), "only/.b/y.py": py("hid_b", 61), "only/.c/z.js": js("hidC", 61),
+        # a byte order mark in front of a long function that starts on line 1
+        "bom.py": ("\ufeff" + py("bom_fn", 33)).encode("utf-8"),
         # a file that is nothing but one 31-line function, last line not newline-terminated (file-size shortcuts misjudge it)
         "bare31.py": py("bare_fn", 31).rstrip("\n"),
         "src/bare31.js": js("bareJs", 31).rstrip("\n"),
